@@ -327,3 +327,203 @@ Proof.
   - apply (inv_exit_root c s I).
   - rewrite (inv_err c s I), Ho. reflexivity.
 Qed.
+
+Lemma inv_order_loop : forall c js ws s, Inv c s -> jobstack s = js -> wstack s = ws ->
+  Inv c (order_loop js ws s).
+Proof.
+  intros c js. induction js as [|j js IH]; intros ws s I Hj Hw; simpl; [exact I|].
+  destruct ws as [|w ws]; [exact I|].
+  apply IH; [|reflexivity|reflexivity].
+  apply inv_order_one; assumption.
+Qed.
+
+Lemma inv_order : forall c s, Inv c s -> Inv c (do_order s).
+Proof. intros c s I. unfold do_order. apply inv_order_loop; [exact I|reflexivity|reflexivity]. Qed.
+
+(** * Case analysis on the shape of a link *)
+
+Ltac shapes s w L :=
+  let L' := fresh "L" in
+  pose proof L as L'; unfold link_ok in L';
+  let a1 := fresh "a" in let a2 := fresh "a" in let a3 := fresh "a" in let a4 := fresh "a" in
+  let a5 := fresh "a" in let a6 := fresh "a" in let a7 := fresh "a" in
+  remember (memb w (wstack s)) as a1 eqn:Em in L';
+  remember (outst s w) as a2 eqn:Eo in L';
+  remember (wfin s w) as a3 eqn:Ef in L';
+  remember (chan s w) as a4 eqn:Ec in L';
+  remember (wst s w) as a5 eqn:Es in L';
+  remember (pend_older s w) as a6 eqn:Ep in L';
+  remember (exited s w) as a7 eqn:Ee in L';
+  destruct L'; symmetry in Em, Eo, Ef, Ec, Es, Ep, Ee.
+
+(** the master's completion receive can complete only in shape LDone *)
+Lemma pend_match_shape : forall s w l, link_ok s w -> outst s w = true -> pend_match s w = Some l ->
+  l = [] /\ chan s w = [MPend] /\ wst s w = Pending /\ memb w (wstack s) = false /\ wfin s w = false /\
+  exited s w = false /\ pend_older s w = true.
+Proof.
+  intros s w l L Ho Hm. shapes s w L; try congruence;
+    unfold pend_match, wildcard_posted in Hm; rewrite Ec, Ep, Es in Hm;
+    destruct (shared w); simpl in Hm; try discriminate.
+  - inversion Hm. repeat split; congruence.
+  - inversion Hm. repeat split; congruence.
+Qed.
+
+(** the worker's wildcard receive can complete only in shapes LSent (with the Work message) and LFinSent
+    (with the Finish message); in particular never with a completion report *)
+Lemma wild_match_shape : forall s w m l, link_ok s w -> wst s w = Pending -> wild_match s w = Some (m, l) ->
+  l = [] /\ exited s w = false /\
+  ((exists j, m = MWork j /\ chan s w = [MWork j] /\ memb w (wstack s) = false /\ outst s w = true /\ wfin s w = false) \/
+   (m = MFinish /\ chan s w = [MFinish] /\ memb w (wstack s) = true /\ outst s w = false /\ wfin s w = true)).
+Proof.
+  intros s w m l L Hs Hm. shapes s w L; try congruence;
+    unfold wild_match in Hm; rewrite Ec, Eo, Ep in Hm;
+    destruct (shared w); simpl in Hm; try discriminate; inversion Hm; subst; split; try reflexivity; split; trivial.
+  - left. exists j. repeat split; congruence.
+  - left. exists j. repeat split; congruence.
+  - right. repeat split; congruence.
+  - right. repeat split; congruence.
+Qed.
+
+(** * Preservation: check_workers() *)
+
+Lemma inv_see : forall c s w s', Inv c s -> In w (pool c) -> see w s = Some s' -> Inv c s'.
+Proof.
+  intros c s w s' I Hp Hsee. unfold see in Hsee.
+  destruct (outst s w) eqn:Ho; [|discriminate].
+  destruct (pend_match s w) as [l|] eqn:Hm; [|discriminate].
+  inversion Hsee as [Hs']; clear Hsee.
+  destruct (pend_match_shape s w l (inv_links c s I w Hp) Ho Hm) as (El & Hc & Hs & Hmem & Hf & He & Hpo).
+  subst l.
+  assert (Act : forall x, active s' x = active s x).
+  { intros x. subst s'. unfold active; simpl. destruct (Nat.eq_dec x w) as [E|E].
+    - subst x. upds. rewrite Hc. reflexivity.
+    - upds. reflexivity. }
+  constructor.
+  - intros x Hx. destruct (Nat.eq_dec x w) as [E|E].
+    + subst x s'. unfold link_ok; simpl. upds. rewrite memb_cons_same, Hf, Hs, He. constructor.
+    + subst s'. apply (link_frame s); simpl; upds; try reflexivity.
+      * apply memb_cons_other. exact E.
+      * apply (inv_links c s I). exact Hx.
+  - subst s'; simpl. constructor; [apply memb_false; exact Hmem|apply (inv_ws_nodup c s I)].
+  - subst s'; simpl. intros x [E|Hx]; [subst; exact Hp|apply (inv_ws_pool c s I); exact Hx].
+  - subst s'; simpl. apply (inv_jobs_nodup c s I).
+  - intros j. rewrite (in_flight_same c s s' j (fun x _ => Act x)).
+    subst s'. unfold on_stack, executed; simpl. apply (inv_cons c s I).
+  - intros x j Hx Hj. rewrite Act in Hj. subst s'; simpl. apply (inv_dmap_active c s I); assumption.
+  - subst s'; simpl. apply (inv_dmap_log c s I).
+  - subst s'; simpl. apply (inv_dmap_dom c s I).
+  - subst s'; simpl. apply (inv_fin c s I).
+  - subst s'; simpl. intros x Hx. assert (x <> w) by (intros E; subst; contradiction). upds.
+    apply (inv_outside c s I). exact Hx.
+  - subst s'; simpl. apply (inv_exit_root c s I).
+  - subst s'; simpl. apply (inv_err c s I).
+Qed.
+
+Lemma inv_check_loop : forall c ws seen s s', (forall w, In w ws -> In w (pool c)) -> Inv c s ->
+  check_loop ws seen s = Some s' -> Inv c s'.
+Proof.
+  intros c ws. induction ws as [|w ws IH]; intros seen s s' Hin I H; simpl in H.
+  - destruct seen; [inversion H; subst; exact I|discriminate].
+  - destruct seen as [|w' seen']; [inversion H; subst; exact I|].
+    destruct (Nat.eqb_spec w w') as [E|E].
+    + destruct (see w s) as [s1|] eqn:Hsee; [|discriminate].
+      apply (IH seen' s1 s'); [intros x Hx; apply Hin; right; exact Hx| |exact H].
+      apply (inv_see c s w s1 I); [apply Hin; left; reflexivity|exact Hsee].
+    + apply (IH (w' :: seen') s s'); [intros x Hx; apply Hin; right; exact Hx|exact I|exact H].
+Qed.
+
+(** finish_all, pointwise *)
+Lemma finish_all_fields : forall l s,
+  jobstack (finish_all l s) = jobstack s /\ wstack (finish_all l s) = wstack s /\
+  outst (finish_all l s) = outst s /\ dmap (finish_all l s) = dmap s /\ alljobs (finish_all l s) = alljobs s /\
+  wst (finish_all l s) = wst s /\ pend_older (finish_all l s) = pend_older s /\
+  exited (finish_all l s) = exited s /\ log (finish_all l s) = log s /\ err (finish_all l s) = err s /\
+  round (finish_all l s) = round s.
+Proof.
+  induction l as [|w l IH]; intros s; simpl; [repeat split; reflexivity|].
+  unfold finish_all in IH. destruct (IH (send_finish w s)) as (H1 & H2 & H3 & H4 & H5 & H6 & H7 & H8 & H9 & H10 & H11).
+  unfold finish_all; simpl. rewrite H1, H2, H3, H4, H5, H6, H7, H8, H9, H10, H11. simpl. repeat split; reflexivity.
+Qed.
+
+Lemma finish_all_wfin : forall l s w, wfin (finish_all l s) w = wfin s w || memb w l.
+Proof.
+  induction l as [|x l IH]; intros s w; simpl; [rewrite orb_false_r; reflexivity|].
+  unfold finish_all in *; simpl. rewrite IH. simpl. unfold memb; simpl.
+  destruct (Nat.eqb_spec w x) as [E|E].
+  - subst. upds. reflexivity.
+  - upds. reflexivity.
+Qed.
+
+Lemma finish_all_chan : forall l s w, NoDup l ->
+  chan (finish_all l s) w = if memb w l then chan s w ++ [MFinish] else chan s w.
+Proof.
+  induction l as [|x l IH]; intros s w Hn; simpl; [reflexivity|].
+  inversion Hn as [|y l' Hx Hn']; subst.
+  unfold finish_all in *; simpl. rewrite IH by exact Hn'. simpl. unfold memb; simpl.
+  destruct (Nat.eqb_spec w x) as [E|E].
+  - subst. apply memb_false in Hx. unfold memb in Hx. rewrite Hx. upds. reflexivity.
+  - simpl. upds. reflexivity.
+Qed.
+
+Lemma filter_all : forall (f : nat -> bool) l, (forall x, In x l -> f x = true) -> filter f l = l.
+Proof.
+  intros f l. induction l as [|x l IH]; intros H; simpl; [reflexivity|].
+  rewrite H by (left; reflexivity). rewrite IH; [reflexivity|]. intros y Hy. apply H. right. exact Hy.
+Qed.
+
+Lemma filter_none : forall (f : nat -> bool) l, (forall x, In x l -> f x = false) -> filter f l = [].
+Proof.
+  intros f l. induction l as [|x l IH]; intros H; simpl; [reflexivity|].
+  rewrite H by (left; reflexivity). apply IH. intros y Hy. apply H. right. exact Hy.
+Qed.
+
+(** what check_workers sends: nothing, or Finish to the whole pool when every job has been executed *)
+Lemma finish_targets_cases : forall c s, Inv c s ->
+  finish_targets c s = [] \/
+  (finish_targets c s = pool c /\ jobstack s = [] /\
+   forall w, In w (pool c) ->
+     memb w (wstack s) = true /\ outst s w = false /\ wfin s w = false /\ chan s w = [] /\ wst s w = Pending /\
+     exited s w = false).
+Proof.
+  intros c s I. unfold finish_targets, finish_cond.
+  destruct (jobstack s) as [|j js] eqn:Hj; [|left; reflexivity].
+  destruct (Nat.leb_spec (nprocs c) (length (wstack s))) as [Hle|Hgt]; [|left; reflexivity].
+  destruct (inv_fin c s I) as [Hf|[Hf _]].
+  - right. split; [|split; [reflexivity|]].
+    + apply filter_all. intros w Hw. rewrite Hf by exact Hw. reflexivity.
+    + intros w Hw.
+      assert (Hin : In w (wstack s)).
+      { apply (NoDup_length_incl (inv_ws_nodup c s I)); [exact Hle| |exact Hw].
+        intros x Hx. apply (inv_ws_pool c s I). exact Hx. }
+      destruct (stack_worker_idle c s w I Hin (Hf w Hw)) as (Ho & Hc & Hs & He).
+      apply memb_In in Hin. repeat split; auto.
+  - left. apply filter_none. intros w Hw. rewrite Hf by exact Hw. reflexivity.
+Qed.
+
+Lemma inv_finish : forall c s, Inv c s -> Inv c (finish_all (finish_targets c s) s).
+Proof.
+  intros c s I. destruct (finish_targets_cases c s I) as [E|(E & Hj & Hall)]; rewrite E; [exact I|].
+  destruct (finish_all_fields (pool c) s) as (H1 & H2 & H3 & H4 & H5 & H6 & H7 & H8 & H9 & H10 & H11).
+  pose proof (finish_all_wfin (pool c) s) as Hwf.
+  pose proof (fun w => finish_all_chan (pool c) s w (pool_NoDup c)) as Hch.
+  assert (Act : forall x, active (finish_all (pool c) s) x = active s x).
+  { intros x. unfold active. rewrite H6, Hch. destruct (memb x (pool c)) eqn:M; [|reflexivity].
+    apply memb_In in M. destruct (Hall x M) as (_ & _ & _ & Hc & _). rewrite Hc. reflexivity. }
+  constructor.
+  - intros w Hw. unfold link_ok. rewrite H2, H3, H6, H7, H8, Hwf, Hch.
+    destruct (Hall w Hw) as (Hm & Ho & Hf & Hc & Hs & He).
+    apply memb_In in Hw. rewrite Hw, Hm, Ho, Hf, Hc, Hs, He. simpl. constructor.
+  - rewrite H2. apply (inv_ws_nodup c s I).
+  - rewrite H2. apply (inv_ws_pool c s I).
+  - rewrite H5. apply (inv_jobs_nodup c s I).
+  - intros j. rewrite (in_flight_same c s _ j (fun x _ => Act x)).
+    unfold on_stack, executed. rewrite H1, H9, H5. apply (inv_cons c s I).
+  - intros w j Hw Hjj. rewrite Act in Hjj. rewrite H4. apply (inv_dmap_active c s I); assumption.
+  - rewrite H9, H4. apply (inv_dmap_log c s I).
+  - rewrite H4, H5. apply (inv_dmap_dom c s I).
+  - right. split; [|rewrite H1; exact Hj].
+    intros w Hw. rewrite Hwf. apply memb_In in Hw. rewrite Hw. apply orb_true_r.
+  - intros w Hw. rewrite Hch. apply memb_false in Hw. rewrite Hw. apply (inv_outside c s I). apply memb_false. exact Hw.
+  - intros _ w Hw. rewrite Hwf. apply memb_In in Hw. rewrite Hw. apply orb_true_r.
+  - rewrite H10. apply (inv_err c s I).
+Qed.
